@@ -306,7 +306,48 @@ def f_shadow() -> List[Case]:
         p = Proto(f"shadow{k}", [x for x in [e[0]] if x] + [a, d])
         cases.append(case_of(p.name, p, ("shadow",), only=["A", "D", "C"]))
         k += 1
+    # import names: two files imported under each other's proto names (`as`); the qualifier written in the schema decides
+    ta, tb = Alias("T", TBase("int", 3)), Alias("T", TBase("uint", 11))
+    ma, mb = en("Mode", 2, "A"), en("Mode", 7, "B")
+    pa, pb = Proto("a", [ta, ma]), Proto("b", [tb, mb])
+    m = Message("M", [Field(TRef(ta, "b.T"), "x", 1), Field(TRef(tb, "a.T"), "y", 2), Field(TRef(ma, "b.Mode"), "m", 3), Field(TRef(mb, "a.Mode"), "n", 4), Field(TArray(TRef(tb, "a.T"), 2), "ys", 5)])
+    cases.append(case_of("imp_swap", Proto("imp_swap", [m], [Import(pa, "b"), Import(pb, "a")]), ("shadow", "import", "noc")))
+    cases.append(samename_case())
     return cases
+
+
+def _stage2(job: Any) -> Dict[str, Any]:
+    """stage 2 workers with one difference: when the code generated for these accepted shadowing schemas does not load
+    (Python) or does not have the struct members the schema declares (C layout unit rejected), a name was bound to the wrong
+    definition somewhere between parser and generator -- a violation here, not a precondition failure"""
+    from . import cenc
+
+    is_c = isinstance(job[1], list)
+    r = (cenc.work if is_c else pyenc.work)(job)
+    keep = []
+    for w in r.get("inconclusive", []):
+        if "generated module does not load" in w or "clang rejected bpv_layout.c" in w or "clang rejected" in w and "_bp.c" in w:
+            case = job[0]
+            r["violations"].append({"what": f"{case.name}: the code generated for this accepted schema is not what its names resolve to: {w[-260:]}",
+                                    "payload": {"kind": "schema", "files": case.proto.files(), "main": case.proto.fname()}, "confirmed": True, "info": {"kind": "binding", "key": "generated-binding"}})
+        else:
+            keep.append(w)
+    r["inconclusive"] = keep
+    return r
+
+
+def samename_case() -> Case:
+    """an imported file with its own c.name_prefix, and local definitions with the SAME names as the imported ones used next to
+    them: `Pos` is the local one, `shared.Pos` the imported one -- in every target language"""
+    U = lambda n: TBase("uint", n)
+    I = lambda n: TBase("int", n)
+    lpos = Message("Pos", [Field(I(11), "x", 1), Field(I(11), "y", 2)])
+    lid = Alias("Id", U(9))
+    lib = Proto("shared", [lid, lpos], [], [("c.name_prefix", '"lib_"')])
+    pos = Message("Pos", [Field(U(3), "q", 1)])
+    ident = Alias("Id", U(5))
+    frame = Message("Frame", [Field(TRef(pos), "a", 1), Field(TRef(lpos, "shared.Pos"), "b", 2), Field(TRef(ident), "i", 3), Field(TRef(lid, "shared.Id"), "j", 4), Field(TArray(TRef(lpos, "shared.Pos"), 2), "bs", 5)])
+    return case_of("imp_prefix_samename", Proto("imp_prefix_samename", [pos, ident, frame], [Import(lib, None)]), ("shadow", "import"), only=["Frame"])
 
 
 def main() -> int:
@@ -315,7 +356,11 @@ def main() -> int:
     q = tier() == "quick"
     vs = variants(q)
     sh = f_shadow()
-    parts = [("parser-templates", work, vs), ("encoded-definition", pyenc.work, [(c, "encode") for c in sh])]
+    from . import cenc
+    from .cenc import Cfg
+
+    parts = [("parser-templates", work, vs), ("encoded-definition", _stage2, [(c, "encode") for c in sh]),
+             ("encoded-definition-c", _stage2, [(samename_case(), [Cfg("O0", "x86_64", False)], ("encode", "decode"))])]
     meta = {
         "functions_encoded": FILES + ["lib/py/bitprotolib/bp.py", "compiler/bitproto/renderer/impls/py/renderer.py"],
         "bounds": "use at nesting depth <= 3; the name optionally declared at each of the 4 enclosing levels none/before/after (3^4 placements; quick: thinned), dotted paths of depth <= 4 from a later message, first dotted component shadowed by a nested message / an import name, imports with and without `as`, constants; widths symbolic in 1..64 (pre-condition); stage 2: 15 concrete shadowing schemas encoded for all values",
